@@ -420,15 +420,17 @@ def rule_r6(ctx):
     p = ctx.p
     f = p.func("proxy_headers.parse_proxy_headers")
     g = cfg_of(f)
+    # the assignment that shrinks the untrusted set once Forwarded is trusted: any spelling, compared by value
+    allh = p.const("proxy_headers", "PROXY_HEADERS")
     st = [m for m in g.nodes if m.kind == "stmt" and isinstance(m.ast, ast.Assign) and any(dotted(t) == "untrusted_headers" for t in m.ast.targets)
-          and isinstance(m.ast.value, ast.BinOp) and isinstance(m.ast.value.op, ast.Sub)]
+          and "PROXY_HEADERS" in norm(m.ast.value) and norm(m.ast.value) not in ("PROXY_HEADERS", "set(PROXY_HEADERS)", "frozenset(PROXY_HEADERS)")]
     ok = False
     for m in st:
         try:
-            rem = p.fold(m.ast.value.right, f.module)
+            val = p.fold(m.ast.value, f.module)
         except NotConst:
-            rem = None
-        if norm(m.ast.value.left) == "PROXY_HEADERS" and rem is not None and set(rem) == {"FORWARDED"}:
+            val = None
+        if val is not None and isinstance(allh, (set, frozenset)) and set(val) == set(allh) - {"FORWARDED"}:
             ok = True
             ctx.r.ok(rid, "with Forwarded trusted the untrusted set is PROXY_HEADERS - {FORWARDED}", f.loc(m.ast))
         else:
@@ -436,12 +438,40 @@ def rule_r6(ctx):
     if not ok and not st:
         ctx.r.violation(rid, key_of(f, None, "forwarded-keeps-x"), "a trusted Forwarded header does not mark the X-Forwarded-* kinds untrusted", f.loc())
     # inside the Forwarded block the per-element variables are reset
-    resets = [n for n in walk_own(f.node) if isinstance(n, ast.Assign) and len(n.targets) >= 2 and isinstance(n.value, ast.Constant) and n.value.value == "" and any(dotted(t) == "forwarded_for" for t in n.targets)]
-    loops = [n for n in walk_own(f.node) if isinstance(n, ast.For) and dotted(n.iter) == "raw_forwarded"]
-    if loops and any(any(x is r for x in ast.walk(loops[0])) for r in resets):
-        ctx.r.ok(rid, "per-element values are reset for every Forwarded element", f.loc(loops[0]))
-    else:
+    # every value that goes into the parsed entry of an element is (re)defined in that iteration before it is used: a
+    # definition inside the loop body dominates the append, and so do the definitions of what it is computed from
+    from .common import def_nodes
+    its = [x for x in g.nodes if x.kind == "iter" and dotted(x.ast.iter) == "raw_forwarded"]
+    apps = [(x, c) for x, c in find_calls(g, lambda c: dotted(c.func) == "proxies.append") if its and any(y is x.ast for y in ast.walk(its[0].ast))]
+    if not its or not apps:
         ctx.r.violation(rid, key_of(f, None, "forwarded-no-reset"), "values of one Forwarded element leak into the next (no per-element reset)", f.loc())
+    else:
+        loop_ast = its[0].ast
+        an, ac = apps[0]
+
+        def fresh(name, at, depth=0):
+            if depth > 4:
+                return False
+            ds = [d for d in def_nodes(g, name) if d.ast is not None and any(y is (d.ast if d.kind != "iter" else d.ast) for y in ast.walk(loop_ast)) and g.dominates(d, at) and d is not its[0]]
+            if name in [y.id for y in ast.walk(loop_ast.target) if isinstance(y, ast.Name)]:
+                return True
+            for d in ds:
+                val = d.ast.value if isinstance(d.ast, ast.Assign) else None
+                if val is None:
+                    continue
+                free = [y.id for y in ast.walk(val) if isinstance(y, ast.Name) and isinstance(y.ctx, ast.Load)]
+                locs = [y for y in free if def_nodes(g, y)]
+                if all(fresh(y, d, depth + 1) for y in locs):
+                    return True
+            return False
+        stale = []
+        for a in ast.walk(ac):
+            if isinstance(a, ast.Name) and isinstance(a.ctx, ast.Load) and def_nodes(g, a.id) and a.id not in ("proxies",) and not fresh(a.id, an):
+                stale.append(a.id)
+        if not stale:
+            ctx.r.ok(rid, "per-element values are reset for every Forwarded element", f.loc(loop_ast))
+        else:
+            ctx.r.violation(rid, key_of(f, None, "forwarded-no-reset"), "values of one Forwarded element leak into the next (no per-element reset of %s)" % sorted(set(stale)), f.loc(loop_ast))
 
 
 def rule_r7(ctx):
